@@ -215,9 +215,11 @@ func parseTXID(s string) (uint64, bool) {
 var malformedCookies = []string{"", "zzzzzzzzzzzzzzzz", "00000000000000a", "00000000000000a00", "0x000000000000a0", "+00000000000000a", "-000000000000001", "000000000000000g", "1e10", "0000-0000-0000-0"}
 
 var pathsOf = map[string][]string{
-	"plain":    {"/", "/app/items/7", "/index.html", "/ptx/y", "/litefs/healthz"},
-	"pt":       {"/pt/", "/pt/asset.png", "/pt/a/b/c"},
-	"af":       {"/af/", "/af/do", "/af/x/y"},
+	// (the last four "plain" paths differ from a configured pattern exactly where the pattern has a dot or
+	// another character that means something in a regular expression: patterns are globs, not expressions)
+	"plain":    {"/", "/app/items/7", "/index.html", "/ptx/y", "/litefs/healthz", "/packages/nodejs", "/ptxv1/x", "/afxv1/do", "/pt+/x"},
+	"pt":       {"/pt/", "/pt/asset.png", "/pt/a/b/c", "/static/app.js", "/pt.v1/x", "/pt+x/y"},
+	"af":       {"/af/", "/af/do", "/af/x/y", "/af.v1/do"},
 	"both":     {"/both/", "/both/z"},
 	"health":   {"/litefs/health"},
 	"healthpt": {"/litefs/health"},
